@@ -736,15 +736,23 @@ func writeHistory(hn int, backend string, gN, wN int, h *history, evs []event, o
 
 // scenario runs a fixed SEQUENTIAL script (one goroutine, same recording) - used for minimal replays of findings.
 //
+//	publish-gap:   (inmem.Store whose publisher goroutine is started late = a slow publisher) two writes of X; watch
+//	               opened; publisher starts; the listing; whatever the watch delivers within 300ms.
 //	restore-stale: watch A open; write X; snapshot; write X again; restore; watch B opened while A's
 //	               subscription still exists; B's listing; then whatever B delivers within 300ms.
 func scenario(name, backend string, seq *atomic.Int64, out *bufio.Writer, st *stats) {
-	if name != "restore-stale" {
+	if name != "restore-stale" && name != "publish-gap" {
 		fatal(2, "unknown scenario %q", name)
 	}
 	var sut resh.SUT
 	var err error
+	startPublisher := func() {}
+	if name == "publish-gap" {
+		backend = "store-late-run"
+	}
 	switch backend {
+	case "store-late-run":
+		sut, startPublisher, err = resh.NewStoreLateRun()
 	case "store":
 		sut, err = resh.NewStore()
 	case "raft":
@@ -812,6 +820,25 @@ func scenario(name, backend string, seq *atomic.Int64, out *bufio.Writer, st *st
 			l.add(seq.Add(1), M{"e": "wrd", "w": w, "wid": ws.wid, "k": kj(k), "res": rr})
 		}
 		return true
+	}
+	if name == "publish-gap" {
+		// two committed writes whose events the publisher has not picked up yet; a watch opened now lists the
+		// second version; then the publisher runs.
+		h.write(l, 0, x, "u1", "", 11, nil)
+		cur, _ := h.known(x)
+		h.write(l, 0, x, "u1", cur.ver, 22, nil)
+		done := make(chan *wst)
+		go func() { done <- open(100) }() // Subscribe needs nothing from the publisher goroutine
+		a := <-done
+		startPublisher()
+		next(100, a, 5*time.Second) // listing: X second version
+		next(100, a, 5*time.Second) // eos
+		for next(100, a, 300*time.Millisecond) {
+		}
+		a.w.Close()
+		sut.Close()
+		writeHistory(0, "store/"+name, 1, 1, h, l.copyOut(), out, st)
+		return
 	}
 	a := open(100)
 	next(100, a, 5*time.Second) // eos
